@@ -32,7 +32,7 @@ def _key(text):
 CLAIMED = {
     # pid: (engine, category, text, design_ref, level_note, technique)
     'C01': _cache('Clauses C01.*: every completed call returns F(args) (and returns at all: an operation that blocks for ever is an event); memory and archives only ever hold F values; '
-                  'also on recursive (re-entrant) calls, on arguments whose keys exceed a file name, and - judged by KeyTrace - on the key engine\'s catalogue of signatures, spellings, keymaps, partials, methods and functions sharing a code object.', '4 (C01), 17'),
+                  'also on recursive (re-entrant) calls, on arguments whose keys exceed a file name, and - judged by KeyTrace - on the key engine\'s catalogue of signatures, spellings, keymaps, partials, methods and functions sharing a code object, including the calls Python rejects (C01.InvalidCallFails: the decorated function must reject them too).', '4 (C01), 17, 22'),
     'C02': _cache('Clauses C02.*: the stub is evaluated exactly when the key is neither resident nor in the bound archive; '
                   'a miss stores; ghost set of keys that must stay retrievable while an archive is attached (kept across f.archive(B)); second instance on the same archive; '
                   'injected archive read faults (no evaluation while the result is archived); recursive calls; results of a few hundred KB over compressed/plain directory and file archives.', '4 (C02), 17, 21'),
@@ -72,9 +72,9 @@ CLAIMED = {
             'their file-system calls (audit hooks + open/exists wrappers in the worker launcher; SQL statements for sqlite) and released '
             'in schedule order; TLC judges every run\'s results and final view (FsTrace).', '4 (C14)',
             'trusted: TLC, harness/fs_worker.py stepping (audit events cover open/mkdir/rename/remove/rmdir/scandir), processes not threads; '
-            'two or three operations, two keys (entries with a history, finished processes keep their handles); sqlite at statement granularity; HDF5/sqlalchemy backends absent',
+            'two or three operations, two keys (entries with a history, finished processes keep their handles, every process seeds the global random generator alike); sqlite at statement granularity; HDF5/sqlalchemy backends absent',
             'TLA+ layer I interleavings model-checked by TLC + TLC-generated schedules replayed on real processes (stepping controller) + trace validation'),
-    'C15': _cache('Clauses C15.*: exactly one of hit/load/miss is incremented according to the pre-state class; size/maxsize; clear semantics; calls of a sibling function decorated by the same decorator object are not part of the account (sibcall).', '4 (C15), 21'),
+    'C15': _cache('Clauses C15.*: exactly one of hit/load/miss is incremented according to the pre-state class; size/maxsize; clear semantics; calls of a sibling function decorated by the same decorator object are not part of the account (sibcall); two stacked klepto decorators report the outer one.', '4 (C15), 21, 22'),
     'C16': _cache('Clauses C16.*: a raising call leaves every observable unchanged and re-raises the same object after one evaluation; '
                   'safe decorators fall back to plain evaluation for unkeyable arguments (unhashable, unprintable, unpicklable); a twin instance that never received the raising calls agrees.', '4 (C16), 20, 21'),
     'C18': _cache('Clauses C18.*: key() is the storage key, lookup() returns the resident value or KeyError, both are pure (a twin instance that never received the queries agrees); __wrapped__ is the decorated callable; with ignore/tol variants, equal arguments of different types, decorated partials and a decorated builtin without signature.', '4 (C18), 20, 21'),
@@ -86,7 +86,7 @@ CLAIMED = {
             'the protocol on its storage (whole-file read-modify-write, one directory per key named by _fname, SQL rows with history) '
             'and TLC checks it refines DictP exhaustively within bounds; TLC-generated and random operation sequences are replayed on '
             'every constructible archive configuration x key set x value set and TLC judges every recorded step (DictTrace).', '4 (C03)',
-            'trusted: TLC, harness/dict_driver.py (id <-> key/value mapping, read-back through items()); 4 keys per key set, 3 '
+            'trusted: TLC, harness/dict_driver.py (id <-> key/value mapping, read-back through items()); a trace is judged beyond an event that is a known finding; 4 keys per key set, 3 '
             'locations; HDF5/sqlalchemy backends and numpy memory-mapping absent',
             'TLA+ layer P/I refinement by TLC + trace validation of replayed TLC behaviours'),
     'C04': ('persist', 'model_checking',
@@ -110,7 +110,7 @@ CLAIMED = {
             'the catalogue; TLC emits the catalogue, every call is pushed through real caches (std/safe), keygen and the standalone '
             'decorators, and TLC judges every recorded call against all earlier calls of its trace (RoundTrace).', '4 (C12)',
             'trusted: TLC, harness/round_checks.py (tree <-> Python value mapping); floats are dyadic rationals so that a correctly '
-            'rounded round() equals exact half-to-even rounding; 23 argument shapes x two leaves (floats incl. values that round to -0.0, ints, strings, None, bool, range, namedtuple, ip network, one-shot iterator, class object, an object whose iter() raises); every call in its three spellings and with containers updated in place; tolerances None,-1,0,1,2',
+            'rounded round() equals exact half-to-even rounding; 25 argument shapes (incl. a ChainMap and a dict with a two-character key) x two leaves (floats incl. values that round to -0.0, ints, strings, None, bool, range, namedtuple, ip network, one-shot iterator, class object, an object whose iter() raises); every call in its three spellings and with containers updated in place; tolerances None,-1,0,1,2',
             'TLA+ rounding oracle on trees + transcription of the rounders, exhaustive catalogue check by TLC, catalogue replay + trace validation'),
     'C19': ('valid', 'model_checking',
             'C19.*: isvalid is True exactly when the interpreter binds the call, validate returns None / raises TypeError accordingly, '
@@ -120,7 +120,7 @@ CLAIMED = {
             'emits the catalogue, every target is materialised as a real callable, every call is put to isvalid/validate/the '
             'interpreter, and TLC judges every recorded case (ValidTrace).', '4 (C19)',
             'trusted: TLC, harness/valid_checks.py; bounded catalogue (160 signature shapes x function/method/callable x partials '
-            'fixing <=3 positionals and <=2 keywords; calls with <=4 positionals and <=3 keywords); positional-only parameters and functools.wraps wrappers included, '
+            'fixing <=3 positionals and <=2 keywords; calls with <=4 positionals and <=3 keywords); positional-only parameters, functools.wraps wrappers and callable instances that carry function metadata included, '
             'nested partials or builtins',
             'TLA+ transcription of Python binding + signature()/validate(), exhaustive catalogue check by TLC, catalogue replay + trace validation'),
     'C20': _cache('Clauses C20.*: a dill round trip yields equal contents/statistics/binding - also when the snapshot is taken by another thread while a call is in flight; lock-step continuation of original and copy; every call of a copy is judged like a call of the original (result, evaluations, statistics); independence; a copy that blocks is a violation; chained keymaps and archives with non-default settings.', '4 (C20), 17'),
